@@ -8,7 +8,7 @@
    responses also when the letter case of the trailer section changes). *)
 From Coq Require Import String.
 From Http Require Import Model.Bytes Model.Utf8 Model.Num Model.Headers Model.Request Model.Response
-     Model.Chunked Model.Coding Spec.ChunkedGrammar Proofs.CaseLemmas Proofs.CaseBytes Proofs.CaseEndToEnd Proofs.CaseTrailer.
+     Model.Chunked Model.Coding Spec.ChunkedGrammar Proofs.CaseLemmas Proofs.CaseBytes Proofs.CaseEndToEnd Proofs.CaseTrailer Proofs.LabelNorm.
 
 (* every lookup the crate performs is blind to letter case *)
 Theorem C18_lookups_ignore_case :
@@ -74,6 +74,18 @@ Theorem C18_decode_text_ignores_case :
       decode_text enc for_label enc_decode hs body = decode_text enc for_label enc_decode hs' body.
 Proof. exact decode_text_ci. Qed.
 Print Assumptions C18_decode_text_ignores_case.
+
+(* the same without a hypothesis: encoding_rs's for_label as "normalise (trim ASCII whitespace, lower-case),
+   then look up" (Model/Coding.v for_label_of; the driver asks the real table with the normalised label on
+   every text case), for every table *)
+Theorem C18_decode_text_ignores_case_any_table :
+  forall (enc : Type) (lookup : bytes -> option enc) (enc_decode : enc -> bytes -> option (list N))
+         (hs hs' : list header) (body : bytes),
+    hdrs_ci hs hs' ->
+    decode_text enc (for_label_of lookup) enc_decode hs body
+    = decode_text enc (for_label_of lookup) enc_decode hs' body.
+Proof. exact decode_text_ci_unconditional. Qed.
+Print Assumptions C18_decode_text_ignores_case_any_table.
 
 (* ---- at the level of bytes ---- *)
 (* the header-block parser is transparent to letter case: same answer, same count, lists equal
